@@ -398,6 +398,37 @@ func Run(r *fw.Run) {
 		}
 		r.Merge(l)
 	})
+	// many identifiers: prereleases and build metadata with 1..130 dot-separated identifiers (counts on both
+	// sides of 8, 16, 32, 64, 128), sharing a long common prefix and differing in the last identifier in
+	// every way that matters to precedence (numeric lengths, numeric vs alphanumeric, hyphen, one more)
+	{
+		l := fw.NewLocal()
+		tails := []string{"9", "10", "a", "-", "9a", "0", "1", "A"}
+		var many []string
+		for _, n := range []int{1, 7, 8, 9, 15, 16, 17, 31, 32, 33, 63, 64, 65, 66, 127, 128, 129, 130} {
+			pre := strings.Repeat("x.", n-1)
+			for _, t := range tails {
+				many = append(many, "v1.0.0-"+pre+t)
+			}
+			many = append(many, "v1.0.0-"+strings.TrimSuffix(pre, "."), "v1.0.0-"+pre+"9.1", "v1.0.0+"+pre+"b", "v1.0.0-"+strings.Repeat("1.", n-1)+"2")
+		}
+		r.Bounds["many_identifier_versions"] = len(many)
+		for _, a := range many {
+			l.States++
+			l.Execs++
+			if msg, _ := unary(a); msg != "" {
+				r.Violation("unary:"+strconv.QuoteToASCII(a), msg, caseT{"unary", q(a)})
+			}
+			for _, b := range many {
+				l.Execs++
+				l.Transitions++
+				if msg := pair(a, b); msg != "" {
+					r.Violation("pair:"+strconv.QuoteToASCII(a)+","+strconv.QuoteToASCII(b), msg, caseT{"pair", q(a, b)})
+				}
+			}
+		}
+		r.Merge(l)
+	}
 	// call histories: every ordered pair of a set of closely related versions, queried back to back in one
 	// goroutine (a result must not depend on what was asked just before)
 	{
